@@ -164,3 +164,163 @@ Proof.
     + destruct (check_num names n k); [discriminate|auto].
     + discriminate.
 Qed.
+
+(* ====== the documented $-syntax, as laws of the step sequence ====== *)
+Section Doc.
+Variable x : expander.
+Hypothesis Hsc : sub_char x < 128.
+
+Lemma steps_cons_char b r rest : (b =? sub_char x) = false -> length (b :: r) = cp_len b ->
+  steps x ((b :: r) ++ rest) = StChar (b :: r) :: steps x rest.
+Proof.
+  intros Hnb Hl. unfold steps. rewrite app_length. cbn [length Nat.add].
+  rewrite (exec_char x _ b r rest Hnb Hl). f_equal. apply exec_steps_fuel; lia.
+Qed.
+
+(* anything that is not the substitution character is copied verbatim, character by character *)
+Theorem steps_verbatim_prefix : forall cs rest, valid_chars cs ->
+  Forall (fun ch => match ch with b :: _ => b <> sub_char x | [] => True end) cs ->
+  steps x (concat cs ++ rest) = map StChar cs ++ steps x rest.
+Proof.
+  induction cs as [|ch cs IH]; intros rest W Hn; [reflexivity|].
+  inversion W as [|? ? Wc Wcs]; subst. inversion Hn as [|? ? Hc Hcs]; subst.
+  destruct ch as [|b r]; [destruct Wc|]. destruct Wc as (Hb & Hr & Hl).
+  cbn [concat map]. rewrite <- app_assoc. rewrite (steps_cons_char b r (concat cs ++ rest)); auto; [|now apply Nat.eqb_neq].
+  cbn [app]. f_equal. now apply IH.
+Qed.
+
+Lemma steps_nil : steps x [] = []. Proof. reflexivity. Qed.
+
+Theorem expansion_verbatim cs c : valid_chars cs ->
+  Forall (fun ch => match ch with b :: _ => b <> sub_char x | [] => True end) cs ->
+  expansion x (concat cs) c = concat cs.
+Proof.
+  intros W Hn. unfold expansion. rewrite <- (app_nil_r (concat cs)) at 1. rewrite steps_verbatim_prefix; auto.
+  rewrite steps_nil, app_nil_r. clear. induction cs as [|ch cs IH]; [reflexivity|]. cbn [map flat_map expand_step concat]. now rewrite IH.
+Qed.
+
+(* the doubled substitution character is one literal substitution character *)
+Theorem steps_doubled rest : steps x (sub_char x :: sub_char x :: rest) = StChar [sub_char x] :: steps x rest.
+Proof.
+  unfold steps. cbn [length]. rewrite (exec_dollar2 x Hsc). f_equal. apply exec_steps_fuel; lia.
+Qed.
+End Doc.
+
+(* identifiers: ASCII letters, digits, underscore (the part of is_alphanumeric || '_' that needs no
+   Unicode table) *)
+Definition idb (b : nat) : Prop := b < 128 /\ is_id_cp b = true.
+
+Lemma decode_ascii s i b : nth_error s i = Some b -> b < 128 -> decode_at s i = Some (b, 1).
+Proof. intros H Hb. unfold decode_at. rewrite H. destruct (Nat.ltb_spec b 128); [reflexivity|lia]. Qed.
+
+Lemma id_run_name : forall name rest f i, Forall idb name ->
+  (match rest with [] => True | b :: _ => b < 128 /\ is_id_cp b = false end) ->
+  i <= length name -> length name - i <= f ->
+  id_run f (name ++ rest) i = length name.
+Proof.
+  intros name rest f. revert name rest. induction f as [|f IH]; intros name rest i Hn Hr Hi Hlt; [cbn; lia|].
+  cbn [id_run]. destruct (Nat.eq_dec i (length name)) as [->|Hne].
+  - destruct rest as [|b r].
+    + unfold decode_at. rewrite app_nil_r. rewrite (proj2 (nth_error_None name (length name)) (le_n _)). reflexivity.
+    + destruct Hr as [Hb Hid]. rewrite (decode_ascii _ _ b); [|rewrite nth_error_app2, Nat.sub_diag by lia; reflexivity|exact Hb].
+      now rewrite Hid.
+  - assert (Hi' : i < length name) by lia.
+    destruct (nth_error name i) as [b|] eqn:Eb; [|apply nth_error_None in Eb; lia].
+    rewrite Forall_forall in Hn. destruct (Hn b (nth_error_In _ _ Eb)) as [Hb Hid].
+    rewrite (decode_ascii _ _ b); [|rewrite nth_error_app1 by lia; exact Eb|exact Hb]. rewrite Hid.
+    apply IH; auto; try lia. now apply Forall_forall.
+Qed.
+
+Lemma skipn_len_app' {A} (a b : list A) : skipn (length a) (a ++ b) = b.
+Proof. rewrite skipn_app, Nat.sub_diag, skipn_all. reflexivity. Qed.
+Lemma firstn_len_app' {A} (a b : list A) : firstn (length a) (a ++ b) = a.
+Proof. rewrite firstn_app, Nat.sub_diag, firstn_all. simpl. now rewrite app_nil_r. Qed.
+
+Lemma parse_id_braced name rest : name <> [] -> Forall idb name ->
+  parse_id (123 :: name ++ 125 :: rest) [123] [125] = Some (name, length name + 2).
+Proof.
+  intros Hne Hn. unfold parse_id.
+  assert (Hsw0 : starts_with (123 :: name ++ 125 :: rest) [123] = true) by (cbn [starts_with]; change (123 =? 123) with true; now rewrite starts_with_nil).
+  rewrite Hsw0.
+  change (skipn (length [123]) (123 :: name ++ 125 :: rest)) with (name ++ 125 :: rest).
+  assert (Hrun : id_run (length (name ++ 125 :: rest)) (name ++ 125 :: rest) 0 = length name).
+  { apply id_run_name; [exact Hn|split; [lia|reflexivity]|lia|rewrite app_length; cbn; lia]. }
+  cbv zeta. rewrite Hrun.
+  assert (Hlt : (length name <? length (name ++ 125 :: rest)) = true) by (apply Nat.ltb_lt; rewrite app_length; cbn; lia).
+  assert (Hsw1 : starts_with (125 :: rest) [125] = true) by (cbn [starts_with]; change (125 =? 125) with true; now rewrite starts_with_nil).
+  rewrite Hlt, skipn_len_app', Hsw1.
+  destruct name as [|n0 name'] eqn:En; [contradiction|]. rewrite <- En in *.
+  assert (Hl : length name = S (length name')) by (subst name; reflexivity). rewrite Hl.
+  assert (Hle : (length [123] + S (length name') <=? length (123 :: name ++ 125 :: rest)) = true).
+  { apply Nat.leb_le. cbn [length]. rewrite app_length. cbn. lia. }
+  rewrite Hle. unfold slice. change (length [123]) with 1. cbn [skipn].
+  replace (1 + S (length name') - 1) with (length name) by lia. rewrite firstn_len_app'.
+  f_equal. f_equal. cbn. lia.
+Qed.
+
+Lemma parse_id_bare name rest : name <> [] -> Forall idb name ->
+  (match rest with [] => True | b :: _ => b < 128 /\ is_id_cp b = false end) ->
+  parse_id (name ++ rest) [] [] = Some (name, length name).
+Proof.
+  intros Hne Hn Hr. unfold parse_id. rewrite starts_with_nil. change (length (@nil nat)) with 0. cbn [skipn]. cbv zeta.
+  assert (Hrun : id_run (length (name ++ rest)) (name ++ rest) 0 = length name).
+  { apply id_run_name; [exact Hn|exact Hr|lia|rewrite app_length; lia]. }
+  rewrite Hrun.
+  assert (Hres : (if length name <? length (name ++ rest)
+                  then if starts_with (skipn (length name) (name ++ rest)) [] then Some (length name) else None
+                  else Some (length (name ++ rest))) = Some (length name)).
+  { rewrite app_length. destruct (Nat.ltb_spec (length name) (length name + length rest)); [now rewrite starts_with_nil|f_equal; lia]. }
+  rewrite Hres.
+  destruct name as [|n0 name'] eqn:En; [contradiction|]. rewrite <- En in *.
+  assert (Hl : length name = S (length name')) by (subst name; reflexivity). rewrite Hl.
+  assert (Hle : (0 + S (length name') <=? length (name ++ rest)) = true) by (apply Nat.leb_le; rewrite app_length; lia).
+  rewrite Hle. unfold slice. cbn [skipn]. replace (0 + S (length name') - 0) with (length name) by lia.
+  rewrite firstn_len_app'. f_equal. f_equal. lia.
+Qed.
+
+Lemma idb_not_brace b : idb b -> (b =? 123) = false.
+Proof. intros [Hb Hid]. apply Nat.eqb_neq. intros ->. discriminate. Qed.
+Lemma idb_not_dollar b : idb b -> (b =? 36) = false.
+Proof. intros [Hb Hid]. apply Nat.eqb_neq. intros ->. discriminate. Qed.
+
+(* one step at the substitution character (default expander), fuel kept abstract *)
+Lemma exec_dollar_default f tail :
+  exec_steps expander_default (S f) (36 :: tail) =
+  if starts_with tail [36] then StChar [36] :: exec_steps expander_default f (skipn 1 tail)
+  else match (match parse_id tail [123] [125] with Some r => Some r | None => parse_id tail [] [] end) with
+       | Some (id, skip) => StName id :: exec_steps expander_default f (skipn skip tail)
+       | None => match parse_decimal0 tail with
+                 | Some (skip, num) => StNum num :: exec_steps expander_default f (skipn skip tail)
+                 | None => StError :: StChar [36] :: exec_steps expander_default f tail
+                 end
+       end.
+Proof. reflexivity. Qed.
+
+(* ${name} *)
+Theorem steps_braced name rest : name <> [] -> Forall idb name ->
+  steps expander_default (36 :: 123 :: name ++ 125 :: rest) = StName name :: steps expander_default rest.
+Proof.
+  intros Hne Hn. unfold steps. cbn [length]. rewrite exec_dollar_default.
+  cbn [starts_with]. change (123 =? 36) with false. cbn [andb].
+  rewrite (parse_id_braced name rest Hne Hn). f_equal.
+  replace (length name + 2) with (S (length name + 1)) by lia. cbn [skipn].
+  replace (length name + 1) with (length (name ++ [125])) by (rewrite app_length; cbn; lia).
+  replace (name ++ 125 :: rest) with ((name ++ [125]) ++ rest) by (rewrite <- app_assoc; reflexivity).
+  rewrite skipn_len_app'. apply (exec_steps_fuel expander_default ltac:(cbn; lia)); [|lia]. rewrite !app_length. cbn [length]. lia.
+Qed.
+
+(* $name : the longest run of identifier characters *)
+Theorem steps_bare name rest : name <> [] -> Forall idb name ->
+  (match rest with [] => True | b :: _ => b < 128 /\ is_id_cp b = false end) ->
+  steps expander_default (36 :: name ++ rest) = StName name :: steps expander_default rest.
+Proof.
+  intros Hne Hn Hr. unfold steps. cbn [length]. rewrite exec_dollar_default.
+  destruct name as [|n0 name'] eqn:En; [contradiction|]. rewrite <- En in *.
+  assert (Hid0 : idb n0) by (subst name; now inversion Hn).
+  assert (Hsw : starts_with (name ++ rest) [36] = false) by (subst name; cbn [app starts_with]; now rewrite (idb_not_dollar n0 Hid0)).
+  rewrite Hsw.
+  assert (Hpb : parse_id (name ++ rest) [123] [125] = None).
+  { unfold parse_id. subst name. cbn [app starts_with]. now rewrite (idb_not_brace n0 Hid0). }
+  rewrite Hpb. rewrite (parse_id_bare name rest Hne Hn Hr). f_equal. rewrite skipn_len_app'.
+  apply (exec_steps_fuel expander_default ltac:(cbn; lia)); [|lia]. rewrite app_length. lia.
+Qed.
